@@ -155,7 +155,11 @@ fn deltas() -> Vec<TimeDelta> {
 
 fn constructors(acc: &mut Acc, part: u64) {
     let i32s = lat_i32();
-    let u32s = lat_u32();
+    let mut u32s = lat_u32();
+    // decimal field limits (seconds, nanoseconds incl. the leap range, ordinals) next to the binary lattice
+    u32s.extend([23, 24, 59, 60, 61, 365, 366, 367, 999_999_999, 1_000_000_000, 1_000_000_001, 1_999_999_999, 2_000_000_000, 2_000_000_001, 86_399, 86_400]);
+    u32s.sort();
+    u32s.dedup();
     let su = small_u32();
     match part {
         0 => {
@@ -276,7 +280,11 @@ fn constructors(acc: &mut Acc, part: u64) {
 
 fn receivers_naive(acc: &mut Acc) {
     let su = small_u32();
-    let u32s = lat_u32();
+    let mut u32s = lat_u32();
+    // decimal field limits (seconds, nanoseconds incl. the leap range, ordinals) next to the binary lattice
+    u32s.extend([23, 24, 59, 60, 61, 365, 366, 367, 999_999_999, 1_000_000_000, 1_000_000_001, 1_999_999_999, 2_000_000_000, 2_000_000_001, 86_399, 86_400]);
+    u32s.sort();
+    u32s.dedup();
     let i32s = lat_i32();
     let u64s = lat_u64();
     let ds = deltas();
@@ -403,7 +411,11 @@ fn receivers_naive(acc: &mut Acc) {
 }
 
 fn receivers_zoned(acc: &mut Acc) {
-    let u32s = lat_u32();
+    let mut u32s = lat_u32();
+    // decimal field limits (seconds, nanoseconds incl. the leap range, ordinals) next to the binary lattice
+    u32s.extend([23, 24, 59, 60, 61, 365, 366, 367, 999_999_999, 1_000_000_000, 1_000_000_001, 1_999_999_999, 2_000_000_000, 2_000_000_001, 86_399, 86_400]);
+    u32s.sort();
+    u32s.dedup();
     let u64s = lat_u64();
     let i32s = lat_i32();
     let ds = deltas();
